@@ -114,14 +114,15 @@ def ent_record(uids: Uids, e):
         attrs["metadata"] = tok(getattr(e, "metadata", None))
     except Exception as ex:  # noqa: BLE001
         attrs["metadata"] = f"<raises {type(ex).__name__}>"
-    pgs = []
+    pgs, pg_order = [], {}
     if kind_of(e) == "object":
         for g in (getattr(e, "property_groups", None) or []):
             pgs.append({"uid": uids.num(g.uid), "name": g.name,
                         "props": sorted(uids.num(p) for p in (g.properties or []))})
+            pg_order[g.name] = [uids.num(p) for p in (g.properties or [])]      # members in the stored order (C12)
     return {"uid": uids.num(e.uid), "kind": kind_of(e), "cls": type(e).__name__,
             "typ": uids.num(e.entity_type.uid), "name": e.name, "ad": bool(e.allow_delete),
-            "attrs": attrs, "dsets": dsets, "pgs": sorted(pgs, key=lambda g: g["uid"])}
+            "attrs": attrs, "dsets": dsets, "pgs": sorted(pgs, key=lambda g: g["uid"]), "pg_order": pg_order}
 
 
 def api_tree(uids: Uids, e, seen=None):
@@ -600,6 +601,14 @@ class Session:
             datas = [c for c in o.children if is_data(c)]
             d = datas[op["b"] % len(datas)]
             gname = ["pgA", "pgB"][op["c"] % 2]
+            if (op["c"] // 2) % 2 == 0:
+                # half of the additions take the last child that is not in the group yet, so that groups list their
+                # members in an order other than the children's
+                have = next((set(g.properties or []) for g in (o.property_groups or []) if g.name == gname), set())
+                rest = [x for x in datas if x.uid not in have]
+                if rest:
+                    d = rest[-1]
+                del rest
             try:
                 g = o.add_data_to_group(d, gname)
             except Exception as ex:  # noqa: BLE001
